@@ -140,6 +140,7 @@ type world struct {
 	kf1Adopted  bool     // some correct node adopted a standalone PREPREPARE in a view above 0 in this world
 	chain       map[uint64]*aBlock // committed block per height (first commit seen)
 	held        map[uint64]bool    // nodes whose inbox is currently held back
+	syncBlocks    map[uint64]*aBlock // last block a member was synced to, per height
 	slowCommits   bool
 	slowUntilView uint64
 }
@@ -340,6 +341,10 @@ func (w *world) sync(n *simNode, b *aBlock) {
 	if b != nil {
 		blk = w.codec.mkBlock(b)
 		h = b.Height
+		if w.syncBlocks == nil {
+			w.syncBlocks = map[uint64]*aBlock{}
+		}
+		w.syncBlocks[h] = b
 	}
 	n.apply("ESync "+b.coq(), fmt.Sprintf("sync to block of height %d", h), evInfo{kind: "sync"}, func() { n.vn.Sync(blk, w.codec.syncProof(h)) })
 	w.rep.count("event:sync")
@@ -454,7 +459,9 @@ func (w *world) inject(n *simNode, m *aMsg, why string) {
 	w.deliver(n, m, raw)
 }
 
-func runWorldMode(cfg *runCfg, name string, kf1 bool) error {
+func runWorldMode(cfg *runCfg, name string, kf1 bool) error { return runWorldModeX(cfg, name, kf1, false) }
+
+func runWorldModeX(cfg *runCfg, name string, kf1 bool, live bool) error {
 	r := rand.New(rand.NewSource(cfg.seed))
 	rep := newReport(name, cfg)
 	runs := 60
@@ -470,7 +477,14 @@ func runWorldMode(cfg *runCfg, name string, kf1 bool) error {
 	for i := 0; i < runs; i++ {
 		w := newWorld(r, rep, cfg.seed*100000+int64(i))
 		w.kf1 = kf1
-		if kf1 && i == 0 {
+		if live {
+			w.run()
+			if why, ok := w.stabilise(); ok {
+				rep.count("live:stabilised-worlds")
+			} else {
+				rep.count("live:skipped: " + why)
+			}
+		} else if kf1 && i == 0 {
 			w = kf1ForkWorld(r, rep, cfg.seed*100000)
 			w.kf1ForkScript()
 			rep.count("world:directed-KF-1-fork-script")
@@ -504,6 +518,9 @@ func runWorldMode(cfg *runCfg, name string, kf1 bool) error {
 	rep.Evaluations = len(cases)
 	rep.DistinctNontr = nontrivial
 	rep.Extra["events"] = events
+	if live {
+		rep.Extra["stabilisation"] = "after the random prefix: laggards synced to the height being decided, inboxes released, then rounds of (Byzantine traffic; deliver everything pending; if the height is not committed, the deciding members in the lowest view time out together); stall = no commit within view-spread + 2n + 3 rounds"
+	}
 	rep.Rule = fmt.Sprintf("%d random worlds (4-7 members, unit/random/heavy weights, rotation 0/1, Byzantine subsets of weight <= f, 40-260 scheduler steps: deliveries, duplicates, drops, elections, syncs, mutated replays, Byzantine strategies); one case per honest node = its whole event/output/state trace; non-trivial = the node committed at least one block; worlds are distinct by construction (seeded)", runs)
 	cf := newCaseFile("From LH Require Import Prims Quorum Msg Term Corr.\nOpen Scope N_scope.")
 	cf.addShards("nc", "ncase", "n_ok", cases, 40)
